@@ -48,6 +48,34 @@ def sc_alphabet(n=N, extra_fill=2):
     return out
 
 
+def limb_boundaries(consts=None):
+    """values that agree with a comparison constant in all higher limbs and differ at limb i by -1 (lower limbs all
+    ones) or +1 (lower limbs zero), for 32-bit limbs (which also covers the 64-bit layout's odd boundaries) and 64-bit
+    limbs: the inputs on which a per-limb comparison chain (is_high, check_overflow, fe_cmp, ...) can slip."""
+    if consts is None:
+        consts = [N, (N - 1) // 2, P, P - N]
+    out = []
+    for c in consts:
+        for w in (32, 64):
+            for i in range(256 // w):
+                lo_mask = (1 << (w * i)) - 1
+                limb = (c >> (w * i)) & ((1 << w) - 1)
+                hi = c >> (w * (i + 1)) << (w * (i + 1))
+                if limb > 0:
+                    out.append(hi | ((limb - 1) << (w * i)) | lo_mask)
+                if limb < (1 << w) - 1:
+                    out.append(hi | ((limb + 1) << (w * i)))
+                # equal in limb i and above, lower part all ones / all zero
+                out.append(hi | (limb << (w * i)) | lo_mask)
+                out.append(hi | (limb << (w * i)))
+    res = []
+    for v in out:
+        v %= 2**256
+        if v not in res:
+            res.append(v)
+    return res
+
+
 def key_alphabet(n=N):
     return [v for v in sc_alphabet(n) if 1 <= v < n]
 
